@@ -82,18 +82,40 @@ func main() {
 		}
 		if c.Kind == "kept" {
 			keptCase(raw, &c)
+			// the comparison profiles (samples labelled pprof::base) also go through the real trimmed reports, once each:
+			// their total is the base total only, so the entries shown add up to more than the total
+			if hasBase(c.Samples) {
+				b, _ := json.Marshal(c.Samples)
+				if !baseSeen[string(b)] {
+					baseSeen[string(b)] = true
+					trimCase(c.Samples, c.Cfg, i)
+				}
+			}
 			return
 		}
 		if (i+int(run.Seed))%stride != 0 && !recursive(c.Samples) {
 			return
 		}
-		if c.Cfg.Mean || c.Cfg.Gran == "addresses" || c.Cfg.Gran == "files" {
+		if c.Cfg.Mean || c.Cfg.Gran == "addresses" || strings.HasPrefix(c.Cfg.Gran, "files") {
 			return // names must identify entries; the mean variants are C04's
 		}
 		trimCase(c.Samples, c.Cfg, i)
 	})
 	randomCases()
 	run.Finish("each evaluation is one real trimmed report (form x node cutoff x nodecount x edge cutoff x sort) of a TLC-enumerated or random profile, validated by TLC (TraceTrim.tla) against the untrimmed definition; non-trivial = report in which at least one entry or edge was removed or marked residual, counted distinct by (shown rows, edges, options)")
+}
+
+var baseSeen = map[string]bool{}
+
+func hasBase(ss []vlib.ASample) bool {
+	for _, s := range ss {
+		for _, l := range s.Lab {
+			if l.K == "pprof::base" {
+				return true
+			}
+		}
+	}
+	return false
 }
 
 // recursive reports whether some sample visits a location twice with something else in between.
